@@ -65,3 +65,15 @@ def run(chk, tier):
         L.teardown_pre_effects(chk, F, 'R18.6', cfg, tfn, tpaths)
     from xpand import rules as X
     X.check_traits(chk, tier, chk.seed, {'C18'})
+    # R18.8 a clause written for one instantiation (`with_types::<A, B>()`) is filed under the instantiation the call with those type
+    # arguments evaluates: the turbofish binds the parameters in declaration order (type-level witness)
+    import tywit
+    try:
+        rs = tywit.run('c05_')
+    except tywit.TywitError as e:
+        chk.ob('R18.8', 'witness harness builds /repo', False, site='build', unrecognised=True, what='tywit build failed', found=str(e)[-800:])
+        rs = []
+    for r in rs:
+        chk.ob('R18.8', 'witness %s: %s' % (r['name'], 'must not type-check (%s)' % r['expect'] if r['expect'] != 'ok' else 'must compile'), r['ok'], site='witness:%s' % r['name'],
+               what='witness %s: %s' % (r['name'], r['detail'][:120]), found=r['detail'], expected=r['expect'])
+    chk.floor('R18.8', 'with_types witnesses', len(rs), 2)
